@@ -308,6 +308,14 @@ pub fn loc_hist(args: &[&[u8]]) -> String {
         let before = l.clone();
         let r = apply(&mut l, code, pl);
         if r == "ERR" && l != before { out.push("LAWFAIL value changed by a call that returned an error".into()); }
+        // C17 on every reachable value: taking the value apart and putting it together again gives the value back
+        {
+            let (lg, sc, rg, vs, ext) = l.clone().into_parts();
+            match ext.parse::<ExtensionsMap>() {
+                Ok(e) => if Locale::from_parts(lg, sc, rg, &vs, Some(e)) != l { out.push(format!("LAWFAIL from_parts(into_parts(value)) differs for {}", l)); },
+                Err(_) => out.push(format!("LAWFAIL from_parts: the extension string of into_parts does not parse: {}", ext)),
+            }
+        }
         out.push(format!("{} {} {}", r, fmt_loc(&l), reparse(&l)));
         i = end;
     }
@@ -657,6 +665,17 @@ pub fn run(out: &mut Out, tier: &str, rng: &mut Rng) {
         out.case("loc_cmp", &[&b, &a], || loc_cmp(&b, &a));
         out.case("loc_matches", &[&a, &b, b"0", b"0"], || loc_matches(&a, &b, false, false));
     }
+    out.comment("C09: -u- before -t- or after, over a grid of bodies INCLUDING EMPTY ones (an empty-bodied extension last in one order, not in the other)");
+    for pre in ["en", "en-US", "de-1996", "und-Latn"] { for ub in ["", "-foo", "-ca-buddhist", "-foo-ca-buddhist", "-ca", "-foo-bar-nu-latn-arab"] {
+        for tb in ["", "-de", "-h0-hybrid", "-de-h0-hybrid", "-de-latn-at", "-h0"] { for suf in ["", "-x-a", "-x"] { for (su, st) in [("u", "t"), ("U", "T")] {
+            let a = format!("{}-{}{}-{}{}{}", pre, su, ub, st, tb, suf);
+            let b = format!("{}-{}{}-{}{}{}", pre, st, tb, su, ub, suf);
+            out.case("loc_meta", &[a.as_bytes(), b.as_bytes()], || loc_meta(a.as_bytes(), b.as_bytes()));
+            let (ea, eb) = (&a[pre.len()..], &b[pre.len()..]);
+            out.case("ext_meta", &[ea.as_bytes(), eb.as_bytes()], || ext_meta(ea.as_bytes(), eb.as_bytes()));
+            out.case("ext_meta", &[ea[1..].as_bytes(), eb[1..].as_bytes()], || ext_meta(ea[1..].as_bytes(), eb[1..].as_bytes()));
+        } } }
+    } }
     out.comment("C09: metamorphic pairs");
     let n = if thorough { 300_000 } else { 30_000 };
     for _ in 0..n {
